@@ -15,20 +15,20 @@ ID = "C10"
 RULE = (
     "Explicit-state BFS; the first event picks one of four initial file databases (GFF3 4-deep chain with directives with / without an "
     "id-less feature, the chain with recorded duplicates, GTF with inference disabled), followed by up to 3 (quick) / 4 (thorough) "
-    "events: GFF3 family 26 = 15 updates (7 bundles x merge strategies, one bundle only a directive and a comment), 6 deletes (id "
-    "string, Feature, list, generator of ids, generator of Features), 3 add_relation (plain, attribute rewrite, unknown ids), reopen, "
-    "set_pragmas; GTF family 14 = 9 updates (5 bundles), 3 deletes, reopen, set_pragmas. Reads are interleaved before every event. "
-    "Every reached state (deduplicated on features, relations, autoincrements, duplicates and the live id counters) is checked: "
-    "features in row order and relation triples against the reference model through a second connection; live connection equals file; "
-    "dialect (live and reopened) and directives unchanged; filtered children, region per seqid, counts and look-ups of every id ever "
-    "stored through the live object; stored bins follow the coordinates; library globals unchanged; a fixed battery of ~25 kinds of "
-    "read calls over a fixed universe of ids / featuretypes / seqids (including ones that do not exist yet) is asked before the last "
-    "operation (thorough: before every operation) and after it, and the live object's answers must equal those of an object freshly "
-    "opened on the same file; for a final update/delete the .bak file (a stale, newer-dated .bak is planted first) equals the "
-    "pre-operation state. One scale history: 1000 of 1002 features deleted in a single call, then an update. Fault runs: for every "
-    "representative state reached by <= 2 events, update bundles B1-B4 (GTF: G2, G3) with the feature source raising after k = 0..n "
-    "items: backup present and equal to the pre-state, failure not swallowed. A state is non-trivial when it differs from the initial "
-    "state."
+    "events: GFF3 family 28 = 17 updates (9 bundles x merge strategies; one directive-only, one in another dialect), 6 deletes (id, "
+    "Feature, list, generators of ids / Features), 3 add_relation (plain, attribute rewrite, unknown ids), reopen, set_pragmas; GTF "
+    "family 14 = 9 updates (5 bundles), 3 deletes, reopen, set_pragmas; quick omits 2 update events per family. Reads are interleaved "
+    "before every event. Every reached state (deduplicated on features, relations, autoincrements, duplicates and the live id counters) "
+    "is checked: features (row order) and relations against the reference model through a second connection; live connection equals "
+    "file; dialect (live and reopened) and directives unchanged; filtered children, region per seqid, counts and look-ups of every id "
+    "ever stored on the live object; stored bins follow the coordinates; library globals unchanged; a fixed battery of 23 kinds of read "
+    "calls (also naming things not yet existing), asked before the last (thorough: every) operation and after it, must be answered as "
+    "by a freshly opened object; for a final update/delete the .bak file (a stale, newer-dated .bak is planted first) equals the "
+    "pre-operation state. Two scale histories: 1000 of 1002 features deleted in one call, then an update; update() fed with merge() "
+    "output and a one-shot generator (longer than the peek window), then an id-less feature whose key must be new. Fault runs: from "
+    "every representative state <= 2 events deep, update bundles B1-B4 (GTF: G2, G3) with the feature source raising after k = 0..n "
+    "items: backup present and equal to the pre-state, failure not swallowed. Non-trivial = every distinct state except the empty root "
+    "history."
 )
 ASSUMPTIONS = [
     "small-scope: histories up to the stated depth over the stated alphabet; 'randomly beyond' is not sampled",
@@ -96,7 +96,7 @@ def depth_of(tier):
 
 
 def bounds(tier):
-    return dict(events=[e for e in EVENTS if tier != "quick" or e not in QUICK_SKIP], depth=depth_of(tier), fault_bundles=["B1", "B2", "B3", "B4"], fault_state_depth=2)
+    return dict(events=[e for e in EVENTS if tier != "quick" or e not in QUICK_SKIP], depth=depth_of(tier), fault_bundles=["B1", "B2", "B3", "B4", "G2", "G3"], fault_state_depth=2)
 
 
 def _clean(wdir):
